@@ -11,14 +11,14 @@ Dot == 46
 IsPtr(x) == x >= 192
 
 LInit(b) == [pos |-> 1, ret |-> 0, inPtr |-> FALSE, cur |-> <<>>, started |-> FALSE, names |-> <<>>,
-             st |-> "run", grey |-> FALSE, work |-> 0, steps |-> 0]
+             st |-> "run", grey |-> FALSE, work |-> 0, steps |-> 0, partial |-> FALSE]
 
 \* cur: the name read so far; started: at least one label has been read for it
 LStep(b, s) ==
   LET t == [s EXCEPT !.steps = @ + 1] IN
   IF s.pos > Len(b) THEN
        \* end of data: a pending name without terminator is a partial name (RFC 4704 4.2)
-       [t EXCEPT !.st = "ok", !.names = IF s.cur = <<>> THEN @ ELSE Append(@, s.cur)]
+       [t EXCEPT !.st = "ok", !.names = IF s.cur = <<>> THEN @ ELSE Append(@, s.cur), !.partial = s.cur # <<>>]
   ELSE LET x == b[s.pos] IN
     IF x = 0 THEN
        [t EXCEPT !.names = Append(@, s.cur), !.cur = <<>>, !.started = FALSE,
@@ -45,6 +45,10 @@ LabelAgrees(b, ok, names) ==
     IF d.st = "err" THEN ~ok
     ELSE IF d.grey THEN (~ok \/ names = d.names)
     ELSE ok /\ names = d.names
+
+\* a complete RFC 1035 encoding: it decodes, and its last name is terminated (by the zero octet or by a pointer) - what an
+\* encoder must produce for a list of complete names, whichever of the permitted forms (plain, compressed) it chooses
+CompleteEncodingOf(b, names) == LET d == LabelDecode(b) IN d.st = "ok" /\ ~d.grey /\ ~d.partial /\ d.names = names
 
 \* ------------------------------------------------------------------ encoder
 RECURSIVE SplitDots(_)
